@@ -165,9 +165,20 @@ def run_check(pid, units, tier, seed, props_files=None, default_imports='', leve
         # specifications given as a reference run of the implementation itself (isolation: the instance running alone)
         si_idx = [i for i, (u, c) in enumerate(all_cases) if c.get('spec_impl')]
         if si_idx:
-            res = run_impl([all_cases[i][1]['spec_impl'] for i in si_idx], pid + '_specimpl')
-            for i, r in zip(si_idx, res):
-                sres[i] = r
+            shared = [i for i in si_idx if not all_cases[i][1].get('spec_impl_fresh')]
+            if shared:
+                res = run_impl([all_cases[i][1]['spec_impl'] for i in shared], pid + '_specimpl')
+                for i, r in zip(shared, res):
+                    sres[i] = r
+            # a reference run that must not see any earlier history gets an interpreter of its own
+            fresh = [i for i in si_idx if all_cases[i][1].get('spec_impl_fresh')]
+            if fresh:
+                from concurrent.futures import ThreadPoolExecutor
+                def one(i):
+                    return run_impl([all_cases[i][1]['spec_impl']], f'{pid}_fresh{i}')[0]
+                with ThreadPoolExecutor(max_workers=12) as ex:
+                    for i, r in zip(fresh, ex.map(one, fresh)):
+                        sres[i] = r
         # whole-step cases are evaluated by the extracted model (OCaml), one driver line per case
         line_idx = [i for i, (u, c) in enumerate(all_cases) if c.get('model_line')]
         if line_idx and model_ok:
